@@ -25,7 +25,10 @@ LEVEL_NOTE = ("Lean kernel + standard axioms; encoder abstract (C01/C36 are abou
               "run uses the real 50 KiB).")
 RULE = ("seeded scenarios: k/N/servers/segment size/file size x chunk size x a list of 0..3 disturbed attempts (error on the i-th "
         "read_encrypted, error after the fetch, disconnect at the i-th read, helper restart between attempts) then a clean attempt, "
-        "then the same file again (already present), then again after deleting shares. A case is one scenario; distinct = distinct "
+        "then the same file again (already present), then again after deleting shares; plus pre-existing-copy scenarios on twin "
+        "grids (helper vs direct upload onto a healthy copy / a copy lacking shares / a copy whose share numbers are duplicated "
+        "across servers while others are lost, files >= N with distinct < N and distinct < k / duplicates with all numbers present / "
+        "no copy) comparing the present decision, the resulting set of share numbers, share bytes and caps. A case is one scenario; distinct = distinct "
         "(params, size, chunk, fault list); non-trivial = at least one disturbance fired.")
 TRUSTED = ["harness/grid.py (LocalWrapper standing in for foolscap references; fault hook)",
            "the HelperProxy in harness/props/c44.py that wraps the returned CHKUploadHelper like foolscap would",
@@ -301,6 +304,192 @@ def run_scenario(ctx, s):
             g2.close()
 
 
+# ----------------------------------------------------------------------------- pre-existing copies of the file
+
+LAYOUTS = ["healthy", "lacking", "dup-missing", "dup-missing", "dup-missing-below-k", "dup-all", "none"]
+
+
+def gen_pre(rng):
+    s = Scenario()
+    s.n = rng.choice([2, 3, 4, 5])
+    s.k = rng.randrange(1, s.n + 1)
+    s.num_servers = rng.randrange(2, 7)
+    s.maxseg = rng.choice([64, 128, 131072])
+    s.size = rng.choice([56, 100, 256, 500])
+    s.layout = rng.choice(LAYOUTS)
+    s.policy = rng.choice(["random", "random", "fifo", "lifo"])
+    s.seed = rng.randrange(1 << 30)
+    return s
+
+
+def pre_dict(s):
+    return dict(pre=True, k=s.k, n=s.n, num_servers=s.num_servers, maxseg=s.maxseg, size=s.size, layout=s.layout,
+                policy=s.policy, seed=s.seed)
+
+
+def pre_from(d):
+    s = Scenario()
+    s.__dict__.update({k: d[k] for k in ("k", "n", "num_servers", "maxseg", "size", "layout", "policy", "seed")})
+    return s
+
+
+def run_preexisting(ctx, s):
+    """The grid already holds a copy of the file in some state of (dis)repair; one twin uploads through the real Helper,
+    the other directly.  Decision, resulting grid state and caps are compared."""
+    import random
+    import shutil
+    import grid
+    from twisted.internet import defer
+    from allmydata.immutable import upload, offloaded
+    from allmydata import uri as _uri
+    from allmydata.storage.server import storage_index_to_dir
+
+    case = pre_dict(s)
+    data = bytes((i * 17 + s.seed) % 251 for i in range(s.size))
+    conv = b"c44-convergence!"
+    prng = random.Random("c44pre-%d" % s.seed)
+
+    class HelperProxy:
+        def __init__(self, helper, rt):
+            self.h, self.rt, self.owner = helper, rt, None
+
+        def remote_get_version(self):
+            return self.h.remote_get_version()
+
+        def remote_upload_chk(self, si):
+            d = defer.maybeDeferred(self.h.remote_upload_chk, si)
+
+            def _wrap(res):
+                hur, uh = res
+                if uh is not None:
+                    uh = grid.LocalWrapper(uh, self.rt, self.owner, "uploadhelper")
+                return (hur, uh)
+            return d.addCallback(_wrap)
+
+    with grid.Runtime(seed=s.seed, policy=s.policy) as rt:
+        gH = grid.Grid(grid.fresh_dir("c44preH"), rt, num_servers=s.num_servers, k=s.k, happy=1, n=s.n, max_segment_size=s.maxseg)
+        gD = grid.Grid(grid.fresh_dir("c44preD"), rt, num_servers=s.num_servers, k=s.k, happy=1, n=s.n, max_segment_size=s.maxseg)
+        try:
+            cH, cD = gH.clients[0], gD.clients[0]
+            # reference: a direct upload onto gH (no helper attached yet)
+            r0 = rt.wait(cH.upload(upload.Data(data, convergence=conv)))
+            rt.settle()
+            si = _uri.from_string(r0.get_uri()).get_storage_index()
+            files = gH.share_files(si)
+            ref = {shnum: share_data(p) for (_, shnum, p) in files}
+            sidir = storage_index_to_dir(si)
+            # ---- bring the copy into the wanted state (ordinary churn: shares got second homes, others were lost)
+            allsh = sorted(ref)
+            if s.layout == "healthy":
+                keep, want_files = set(allsh), 0
+            elif s.layout == "none":
+                keep, want_files = set(), 0
+            elif s.layout == "lacking":
+                keep, want_files = set(prng.sample(allsh, prng.randrange(0, len(allsh)))), 0
+            elif s.layout == "dup-all":
+                keep, want_files = set(allsh), len(files) + prng.randrange(1, 4)
+            elif s.layout == "dup-missing-below-k":
+                keep = set(prng.sample(allsh, max(1, min(len(allsh) - 1, prng.randrange(1, max(2, s.k))))))
+                want_files = s.n + prng.randrange(0, 3)
+            else:
+                keep = set(prng.sample(allsh, prng.randrange(1, len(allsh)))) if len(allsh) > 1 else set(allsh)
+                want_files = s.n + prng.randrange(0, 3)
+            for (srv, shnum, path) in files:
+                if shnum not in keep:
+                    os.unlink(path)
+            held = {(srv, shnum): path for (srv, shnum, path) in gH.share_files(si)}
+            slots = [(j, sh) for sh in sorted(keep) for j in range(s.num_servers) if (j, sh) not in held]
+            prng.shuffle(slots)
+            while len(held) < want_files and slots:
+                j, sh = slots.pop()
+                src = next(pth for (sv, x), pth in sorted(held.items()) if x == sh)
+                ddir = os.path.join(gH.storage[j].sharedir, sidir)
+                os.makedirs(ddir, exist_ok=True)
+                shutil.copyfile(src, os.path.join(ddir, str(sh)))
+                held[(j, sh)] = os.path.join(ddir, str(sh))
+            # ---- the twin gets a file-level clone of exactly this state
+            for i in range(s.num_servers):
+                srcd = os.path.join(gH.storage[i].sharedir, sidir)
+                dstd = os.path.join(gD.storage[i].sharedir, sidir)
+                if os.path.isdir(srcd) and os.listdir(srcd):
+                    os.makedirs(os.path.dirname(dstd), exist_ok=True)
+                    shutil.copytree(srcd, dstd)
+            answers = sorted((srv, sh) for (srv, sh, p) in gH.share_files(si))
+            if answers != sorted((srv, sh) for (srv, sh, p) in gD.share_files(si)):
+                raise common_infra("twin grid clone differs")
+            distinct0 = sorted({sh for (_, sh) in answers})
+            case["answers"] = [list(a) for a in answers]
+            shape = "%s files%sN distinct%sN%s" % (s.layout, ">=" if len(answers) >= s.n else "<", "=" if len(distinct0) >= s.n else "<",
+                                                  " distinct<k" if len(distinct0) < s.k else "")
+            ctx.count("pre:" + shape)
+            # ---- helper on gH
+            gH.broker.get_stub_server = lambda sid: [x for x in gH.broker.servers if x.get_serverid() == sid][0]
+            helper = offloaded.Helper(os.path.join(gH.basedir, "helper"), gH.broker, cH._secret_holder, None, None)
+            px = HelperProxy(helper, rt)
+            w = grid.LocalWrapper(px, rt, name="helper")
+            px.owner = w
+            w.version = helper.remote_get_version()
+            cH.getServiceNamed("uploader")._got_versioned_helper(w)
+            w0 = write_counts(gH)
+            rH = rD = None
+            try:
+                rH = rt.wait(cH.upload(upload.Data(data, convergence=conv)))
+            except Exception as e:
+                ctx.count("pre-helper-upload-failed:" + type(e).__name__)
+            rt.settle()
+            try:
+                rD = rt.wait(cD.upload(upload.Data(data, convergence=conv)))
+            except Exception as e:
+                ctx.count("pre-direct-upload-failed:" + type(e).__name__)
+            rt.settle()
+            present = helper._counters["chk_upload_helper.upload_already_present"]
+            fetched = helper._counters["chk_upload_helper.fetched_bytes"]
+            wrote = write_counts(gH) != w0
+            afterH = {}
+            for (srv, sh, p) in gH.share_files(si):
+                afterH.setdefault(sh, []).append(share_data(p))
+            afterD = {}
+            for (srv, sh, p) in gD.share_files(si):
+                afterD.setdefault(sh, []).append(share_data(p))
+            case.update(present=bool(present), fetched=fetched, distinct_before=distinct0,
+                        helper_after=sorted(afterH), direct_after=sorted(afterD))
+            # ---- monitor (from the statement: helper upload == direct upload; "already present" only for a present file)
+            if present and len(distinct0) < s.n:
+                missing = [x for x in range(s.n) if x not in distinct0]
+                ctx.violation("the helper reported the file as already present (nothing fetched, nothing pushed) although share number(s) %s "
+                              "exist on no server (%d share files, %d distinct of N=%d, k=%d)" % (missing, len(answers), len(distinct0), s.n, s.k),
+                              case, "helper-reported-present-but-shares-missing")
+            if (rH is None) != (rD is None):
+                ctx.violation("helper-assisted and direct upload disagree on success (%s vs %s)" % (rH is not None, rD is not None),
+                              case, "helper-direct-outcome-differs:" + s.layout)
+            if rH is not None and rD is not None:
+                if sorted(afterH) != sorted(afterD):
+                    ctx.violation("after the upload the helper grid holds share numbers %s, the direct-upload twin %s" % (sorted(afterH), sorted(afterD)),
+                                  case, "helper-grid-state-differs-from-direct:" + ("present" if present else "uploaded"))
+                if rH.get_uri() != rD.get_uri() or rH.get_uri() != r0.get_uri():
+                    ctx.violation("read-cap differs between helper and direct upload onto a pre-existing copy", case, "pre-readcap-differs")
+                if rH.get_verifycapstr() != rD.get_verifycapstr():
+                    ctx.violation("verify-cap differs between helper and direct upload onto a pre-existing copy", case, "pre-verifycap-differs")
+                for name, after in (("helper", afterH), ("direct", afterD)):
+                    bad = sorted(sh for sh, bodies in after.items() if any(b != ref.get(sh) for b in bodies))
+                    if bad:
+                        ctx.violation("share(s) %s on the %s grid differ from the correct share bytes" % (bad, name), case, "pre-share-bytes-differ:" + name)
+                if present and (wrote or fetched):
+                    ctx.violation("the helper reported already-present but fetched ciphertext or wrote shares", case, "present-but-transferred")
+            ctx.case(repr(sorted((k, repr(v)) for k, v in case.items() if k in ("k", "n", "num_servers", "layout", "answers"))))
+            ctx.count("pre-decision:%s:%s" % (s.layout, "present" if present else "need-upload"))
+            line = "presentp 0 %s %s" % (",".join("%d.%d" % a for a in answers) or "-", s.n if answers else "none")
+            return case, line, "present" if present else "need-new"
+        finally:
+            gH.close()
+            gD.close()
+
+
+def common_infra(msg):
+    import common
+    return common.InfraError(msg)
+
+
 def run(ctx):
     import common
     common.setup_impl_path()
@@ -309,13 +498,30 @@ def run(ctx):
         globalLogBeginner.beginLoggingTo([lambda event: None], redirectStandardIO=False, discardBuffer=True)
     except Exception:
         pass
-    if ctx.replay and isinstance(ctx.replay.get("case"), dict) and "chunk" in ctx.replay["case"]:
+    pre = []
+    if ctx.replay and isinstance(ctx.replay.get("case"), dict) and ctx.replay["case"].get("pre"):
+        scen, pre = [], [pre_from(ctx.replay["case"])]
+    elif ctx.replay and isinstance(ctx.replay.get("case"), dict) and "chunk" in ctx.replay["case"]:
         scen = [scenario_from(ctx.replay["case"])]
     else:
-        scen = [gen_scenario(ctx.rng) for _ in range(ctx.budget(220, 5000))]
+        prng = ctx.subrng("pre")
+        pre = [gen_pre(prng) for _ in range(ctx.budget(80, 1500))]
+        scen = [gen_scenario(ctx.rng) for _ in range(ctx.budget(130, 3000))]
         scen.append(gen_scenario(ctx.rng, big=True))
+    ql, qw, qc = [], [], []
+    for s in pre:
+        if len(ctx.violations) >= 50:
+            break
+        case, line, want = run_preexisting(ctx, s)
+        ql.append(line)
+        qw.append(want)
+        qc.append(case)
+    ctx.compare("already-present decision on a pre-existing copy (get_buckets answers as (server, share number) pairs)",
+                qc, qw, ctx.model(ql))
     lines, wants, cases = [], [], []
     for s in scen:
+        if len(ctx.violations) >= 50:
+            break          # the report is capped at 50
         case, line, want = run_scenario(ctx, s)
         if line:
             lines.append(line)
